@@ -14,7 +14,7 @@ import (
 func init() {
 	ev.Register(&ev.Spec{
 		ID: "C04", Level: "exploration",
-		Rule:    "(a) model-guided bounded-exhaustive: breadth-first over an alphabet of ~75 requests (fids {0,1,2,7}, every T-type incl. Tauth, auth-fid attach, open modes, xattr walk/create/read/write/clunk, remove, rename family), de-duplicating canonical (model state, backend tree) pairs and executing every (state, request) edge on a fresh real server; (b) PRNG sequences of 150-1500 requests over wider alphabets with fid re-use and operations on clunked fids; after every step every small fid is probed (Tgetattr: EBADF iff the model says unbound). Every reply is compared with the session model's verdict (set of acceptable errnos / success type / errno of the failing backend call) and rejected requests must not reach the backend. Non-trivial: the edge passes fid lookup; distinct by (state hash, request).",
+		Rule:    "(a) model-guided bounded-exhaustive: breadth-first over an alphabet of ~75 requests (fids {0,1,2,7}, every T-type incl. Tauth, auth-fid attach, open modes, xattr walk/create/read/write/clunk, remove, rename family), de-duplicating canonical (model state, backend tree) pairs and executing every (state, request) edge on a fresh real server; (b) PRNG sequences of 150-1500 requests over wider alphabets with fid re-use and operations on clunked fids; after every step every small fid is probed (Tgetattr: EBADF iff the model says unbound). Every reply is compared with the session model's verdict (set of acceptable errnos / success type / errno of the failing backend call) and rejected requests must not reach the backend. Directed: a Txattrcreate on a fid that already carries a pending xattr value (bound by Txattrwalk, or a second Txattrcreate after writes) - if it is answered Rxattrcreate the pending value starts empty. Non-trivial: the edge passes fid lookup; distinct by (state hash, request).",
 		Assume:  []string{"internal/model encodes the statement's rules and nothing else; outcomes the statement leaves open are don't-care and end the sequence", "memfs (path-bound handles) as backend"},
 		Shards:  shards(8, 16),
 		Timeout: timeout(8*time.Minute, 60*time.Minute),
@@ -100,6 +100,7 @@ func c04Exec(c *ev.Ctx, prop string, seq []areq, nconn int, identity bool) (key 
 
 func runC04(c *ev.Ctx) {
 	c04BFS(c)
+	c04XattrRestart(c)
 	c04Random(c, "C04", c.Sz(300, 6000), 1, false)
 }
 
@@ -496,6 +497,54 @@ func c04Random(c *ev.Ctx, prop string, nseq int, nconn int, identity bool) {
 		if c.WantSample() && si%5 == 0 {
 			c.Sample(map[string]any{"part": "random", "steps": len(st.trace), "tail": st.tail()})
 		}
+		st.close()
+	}
+}
+
+// c04XattrRestart: a Txattrcreate on a fid that already carries a pending xattr
+// value - bound by Txattrwalk to a non-empty attribute, or left by an earlier
+// Txattrcreate and its writes. The statements do not say whether the server
+// accepts that (the breadth-first search stops at such don't-care edges); but
+// if it answers Rxattrcreate, the sub-protocol starts afresh: the pending value
+// is empty, a write at offset 0 is the next one, and what Tclunk commits is
+// what was written since.
+func c04XattrRestart(c *ev.Ctx) {
+	nf := u(wire.NOFID)
+	seqs := [][]areq{
+		{R(wire.Tattach, u(0), nf, "u", "", u(wire.NOUID)), R(wire.Twalk, u(0), u(1), []string{"f"}), R(wire.Txattrwalk, u(1), u(2), "user.x"), R(wire.Txattrcreate, u(2), "user.b", u(5), u(0)),
+			R(wire.Twrite, u(2), u(0), []byte("hel")), R(wire.Twrite, u(2), u(3), []byte("lo")), R(wire.Tclunk, u(2))},
+		{R(wire.Tattach, u(0), nf, "u", "", u(wire.NOUID)), R(wire.Twalk, u(0), u(1), []string{"f"}), R(wire.Txattrcreate, u(1), "user.c", u(2), u(0)), R(wire.Twrite, u(1), u(0), []byte("ab")),
+			R(wire.Txattrcreate, u(1), "user.d", u(2), u(0)), R(wire.Twrite, u(1), u(0), []byte("xy")), R(wire.Tclunk, u(1))},
+		{R(wire.Tattach, u(0), nf, "u", "", u(wire.NOUID)), R(wire.Twalk, u(0), u(1), []string{"f"}), R(wire.Txattrwalk, u(1), u(2), ""), R(wire.Txattrcreate, u(2), "user.e", u(1), u(0)),
+			R(wire.Twrite, u(2), u(0), []byte("z")), R(wire.Tclunk, u(2))},
+	}
+	for si, seq := range seqs {
+		if !c.Mine(si + 1) {
+			continue
+		}
+		fs := fixture()
+		st := newStepper(c, "C04", fs, 1)
+		if st.dead {
+			c.Inconclusive("C04: world setup failed")
+			continue
+		}
+		mark := fs.NCalls()
+		for _, a := range seq {
+			if r := st.step(0, a.t, a.vals...); st.dead || !r.ok {
+				break
+			}
+		}
+		// what was committed, if anything, is what was written after the restart
+		name := map[int]string{0: "user.b", 1: "user.d", 2: "user.e"}[si]
+		val := map[int]string{0: "hello", 1: "xy", 2: "z"}[si]
+		for _, cl := range fs.Calls(mark) {
+			if cl.Method == "SetXattr" && cl.ErrVal == nil {
+				if got, ok := fs.Lookup("/f").Xattr[name]; !ok || string(got) != val {
+					c.Violation("C04:xattr-create-commits-bytes-that-were-not-written-after-it", map[string]any{"call": cl.String(), "stored": string(got), "want": val, "trace": st.tail()})
+				}
+			}
+		}
+		c.Case(fmt.Sprintf("xattr-restart:%d", si), true)
 		st.close()
 	}
 }
